@@ -88,7 +88,46 @@ def vec_layout(f, target_pred=None, must_targets=None):
         op = 'push' if c.endswith('::push') else ('extend_from_slice' if c.endswith('extend_from_slice') else ('append' if c.endswith('::append') else 'extend'))
         val = f.argv(bi, 1)
         w = 1 if op == 'push' else width_of(f, bi, val, t['args'][1])
-        items.append({'block': bi, 'op': op, 'recv': recv, 'value': val, 'width': w, 'loc': f.loc(bi)})
+        items.append({'block': bi, 'op': op, 'recv': recv, 'value': val, 'width': w, 'loc': f.loc(bi), 'raw': f.arg(bi, 1)})
+    # a vector that starts life as `[a, b, c].concat()` or `x.to_vec()`: the parts are its first items
+    recv_locals = {it['recv'][1] for it in items if isinstance(it['recv'], tuple) and it['recv'][0] == 'local'}
+
+    def final_name(l):
+        # the variable the freshly built vector is known by: the first local along the chain of moves that is used
+        # as a receiver of appends (else the local itself)
+        chain = [l]
+        for _ in range(6):
+            nxt = [st['lhs']['l'] for blk in f.blocks if not blk['cleanup'] for st in blk['stmts']
+                   if not st['lhs']['p'] and st['rv']['k'] == 'use' and st['rv']['a']['k'] == 'move' and not st['rv']['a']['place']['p'] and st['rv']['a']['place']['l'] == chain[-1]]
+            if len(nxt) == 1:
+                chain.append(nxt[0])
+            else:
+                break
+        for x in chain:
+            if x in recv_locals:
+                return x
+        return chain[0]
+    inits = []
+    for bi in order:
+        t = f.blocks[bi]['term']
+        if t['k'] != 'call' or f.blocks[bi]['cleanup'] or t['dest']['p'] or not re.search(r'Vec<u8', f.locals[t['dest']['l']]['ty']):
+            continue
+        c = (t['resolved'] or [t['callee']])[0]
+        recv = ('local', final_name(t['dest']['l']))
+        if target_pred is not None and not target_pred(recv):
+            continue
+        if re.search(r'\[T\]>::concat$|Concat<[^>]*>>::concat$', c) or re.search(r'::concat$', t['callee']):
+            arr = peel(f.argv(bi, 0), unwraps=False)
+            if isinstance(arr, tuple) and arr[0] == 'agg' and arr[1] == 'array':
+                for part in arr[2]:
+                    inits.append({'block': bi, 'op': 'part', 'recv': recv, 'value': part, 'width': width_of(f, bi, part, {'k': 'const'}), 'loc': f.loc(bi)})
+        elif re.search(r'slice::<impl \[T\]>::to_vec$|\[T\]>::to_vec$', c):
+            # only when something is appended to it afterwards (otherwise it is just a copy)
+            if any(it['recv'] == recv for it in items):
+                v0 = f.argv(bi, 0)
+                inits.append({'block': bi, 'op': 'init', 'recv': recv, 'value': v0, 'width': width_of(f, bi, v0, t['args'][0]), 'loc': f.loc(bi), 'raw': f.arg(bi, 0)})
+    if inits:
+        items = sorted(inits + items, key=lambda it: (pos.get(it['block'], 1 << 30), 0 if it['op'] in ('part', 'init') else 1))
     # 'must': executed on every path from entry to a normal return
     rets = f.return_blocks() if must_targets is None else must_targets
     inf = f.infeasible_edges()
@@ -340,7 +379,8 @@ def byte_layout(f, items, source=None):
     for it in items:
         v = it['value']
         if it['op'] == 'push':
-            out.append((classify(be.bits(v)), it))
+            b_ = be.bits(v)
+            out.append((classify(b_), it, (list(b_) + [0] * 8)[:8] if b_ is not None else None))
             continue
         by = be.bytes_of(v)
         if by is None:
@@ -348,9 +388,29 @@ def byte_layout(f, items, source=None):
             while is_call(pv, r'to_vec$|as_slice$|Deref::deref$'):
                 pv = peel(pv[2][0], unwraps=False)
             by = be.bytes_of(pv)
+        if by is None and not it.get('in_loop'):
+            # a byte array local that was filled / patched element by element: read it element-wise at the call
+            raw = it.get('raw')
+            while isinstance(raw, tuple) and raw[0] in ('ref', 'cast') and len(raw) > 1:
+                raw = raw[1] if raw[0] == 'ref' else raw[2]
+            if isinstance(raw, tuple) and raw[0] == 'local':
+                m_ = re.match(r'^\[u8; (\d+)_usize\]$', f.locals[raw[1]]['ty'])
+                if m_:
+                    pt = (it['block'], len(f.blocks[it['block']]['stmts']))
+                    by = []
+                    for k_ in range(int(m_.group(1))):
+                        e_ = f._through(f.read(('index', ('local', raw[1]), ('const', k_, None, 'usize')), pt), pt, 0)
+                        b_ = be.bits(e_)
+                        by.append((list(b_) + [0] * 8)[:8] if b_ is not None else None)
+        if by is None and it.get('width') and not it.get('in_loop'):
+            pv2 = peel(v, unwraps=False)
+            bb = be.bits(pv2)
+            if bb is None and isinstance(pv2, tuple) and pv2[0] == 'repeat':
+                bb0 = be.bits(pv2[1])
+                by = [(list(bb0) + [0] * 8)[:8] if bb0 is not None else None] * it['width']
         if by is None:
-            out.append((('blob', short(v)[:60]), it))
+            out.append((('blob', short(v)[:60]), it, None))
         else:
             for b in by:
-                out.append((classify(b), it))
+                out.append((classify(b), it, (list(b) + [0] * 8)[:8] if b is not None else None))
     return out
